@@ -1223,18 +1223,104 @@ end TwoLocks
     membership test and the append are under `_sys_path_lock`, the sets only decide whether to get there. -/
 theorem syspath_once_fine (ex : Nat → Bool) (base : List Nat) (prog : Tid → List Nat) (sched : List Tid)
     (hbase : base.Nodup) : (fRun ex (fInit base prog) sched).sysPath.Nodup :=
-  (fInv_run ex base sched _ (fInv_init ex base prog hbase)).nodup
+  (fInv_run ex base sched _ (fInv_init base prog hbase)).nodup
 
 theorem syspath_keeps_prior_fine (ex : Nat → Bool) (base : List Nat) (prog : Tid → List Nat)
     (sched : List Tid) (hbase : base.Nodup) : base <+: (fRun ex (fInit base prog) sched).sysPath :=
-  (fInv_run ex base sched _ (fInv_init ex base prog hbase)).keeps
+  (fInv_run ex base sched _ (fInv_init base prog hbase)).keeps
+
+/-- … and while directories appear and disappear under the running threads (the exists() oracle per step) -/
+theorem syspath_once_fine_anyfs (base : List Nat) (prog : Tid → List Nat) (sched : List ((Nat → Bool) × Tid))
+    (hbase : base.Nodup) : (fRunW (fInit base prog) sched).sysPath.Nodup :=
+  (fInv_runW base sched _ (fInv_init base prog hbase)).nodup
 
 /-- `syspath_added_fine`: a path in `_known_dirs` that exists is on `sys.path` — so the unlocked early return
-    (`path in _known_dirs and path not in _missing_dirs`) never skips a directory that still has to be added. -/
+    (`path in _known_dirs and path not in _missing_dirs`) never skips a directory that still has to be added.
+    (A process without a history, file system standing still: then `_missing_dirs` holds no existing directory.) -/
 theorem syspath_added_fine (ex : Nat → Bool) (base : List Nat) (prog : Tid → List Nat) (sched : List Tid)
     (hbase : base.Nodup) (p : Nat) (hk : p ∈ (fRun ex (fInit base prog) sched).known)
-    (hex : ex p = true) : p ∈ (fRun ex (fInit base prog) sched).sysPath :=
-  (fInv_run ex base sched _ (fInv_init ex base prog hbase)).known p hk hex
+    (hex : ex p = true) : p ∈ (fRun ex (fInit base prog) sched).sysPath := by
+  refine (fInv_run ex base sched _ (fInv_init base prog hbase)).known p hk ?_
+  intro hm
+  have := f_missing_run ex sched (fInit base prog) (by simp [fInit, FPc.absent]) (by simp [fInit]) p hm
+  simp [hex] at this
+
+/-- `add_sys_path_returned_on_syspath_anyfs` — what a caller of `add_sys_path` relies on, in full: a process with
+    ANY history of earlier calls (`_known_dirs` / `_missing_dirs` as those left them: `hk`; a directory that was
+    missing at an earlier call and exists now is in both sets and not on `sys.path`), any number of threads, any
+    interleaving at the granularity of the single set operations, the file system changing at any moment (the
+    exists() oracle per step): whenever a thread RETURNS from `add_sys_path(p)` by the unlocked early return or
+    from the locked append — i.e. unless its OWN exists() test said the directory is not there — `p` is on
+    `sys.path` at that moment. The import the caller does next finds the directory. -/
+theorem add_sys_path_returned_on_syspath_anyfs (base known missing : List Nat) (prog : Tid → List Nat)
+    (sched : List ((Nat → Bool) × Tid)) (hbase : base.Nodup) (hk : ∀ p ∈ known, p ∉ missing → p ∈ base)
+    (ex : Nat → Bool) (t : Tid) (p : Nat) :
+    let st := fRunW (fInitH base known missing prog) sched
+    (st.threads t).pc.path = some p → (st.threads t).pc.absent = none →
+      ((fStep ex st t).threads t).pc = .fIdle → p ∈ (fStep ex st t).sysPath := by
+  intro st hin hnot hret
+  exact f_return_step ex base st t (fInv_runW base sched _ (fInv_initH base known missing prog hbase hk)) p
+    hin hnot hret
+
+/-- `add_sys_path_returned_on_syspath` — the same while the file system stands still: EVERY return of
+    `add_sys_path(p)` for a directory that exists finds `p` on `sys.path`. -/
+theorem add_sys_path_returned_on_syspath (ex : Nat → Bool) (base known missing : List Nat) (prog : Tid → List Nat)
+    (sched : List Tid) (hbase : base.Nodup) (hk : ∀ p ∈ known, p ∉ missing → p ∈ base)
+    (t : Tid) (p : Nat) :
+    let st := fRun ex (fInitH base known missing prog) sched
+    (st.threads t).pc.path = some p → ((fStep ex st t).threads t).pc = .fIdle → ex p = true →
+      p ∈ (fStep ex st t).sysPath := by
+  intro st hin hret hex
+  have hinv := fInv_run ex base sched _ (fInv_initH base known missing prog hbase hk)
+  have habs := f_absent_run ex sched (fInitH base known missing prog) (by simp [fInitH, FPc.absent]) t
+  refine f_return_step ex base st t hinv p hin ?_ hret
+  cases hpc : (st.threads t).pc <;> simp_all [FPc.absent, FPc.path, st]
+
+/-- the order as a parameter: `FOrder.repaired` IS `fStep` -/
+theorem fStepO_repaired (ex : Nat → Bool) (st : FState) (t : Tid) : fStepO .repaired ex st t = fStep ex st t := by
+  cases hpc : (st.threads t).pc <;> simp only [fStepO, fStep, hpc, FOrder.repaired]
+
+def histProg : Tid → List Nat
+  | 0 => [7]
+  | 1 => [7]
+  | _ => []
+
+/-- the hypotheses are satisfiable by the history that matters — 7 was missing at an earlier call (known AND
+    missing, not on `sys.path`) and exists now; thread 0 is about to take the lock when thread 1 calls: thread 1
+    does not take the early return (7 is still marked missing), it goes on to the append itself -/
+example : (∀ p ∈ [7], p ∉ [7] → p ∈ [1]) ∧
+    let st := fRun (fun p => p == 7) (fInitH [1] [7] [7] histProg) [0, 0, 0, 0, 1, 1, 1, 1]
+    (st.threads 0).pc = .fWant 7 ∧ (st.threads 1).pc = .fWant 7 ∧ st.sysPath = [1] := by decide
+
+/-- `discardFirst_breaks_returned_on_syspath` — the order before the repair (`_missing_dirs.discard` BEFORE the
+    append), same history: thread 0 has discarded 7 from `_missing_dirs` and waits for the lock; thread 1's call
+    sees "known and not missing" and RETURNS — 7 exists and is not on `sys.path`. -/
+theorem discardFirst_breaks_returned_on_syspath :
+    let ex : Nat → Bool := fun p => p == 7
+    let st := fRunO .discardFirst ex (fInitH [1] [7] [7] histProg) [0, 0, 0, 0, 0, 1, 1]
+    (st.threads 1).pc.path = some 7 ∧ ((fStepO .discardFirst ex st 1).threads 1).pc = .fIdle ∧ ex 7 = true ∧
+      7 ∉ (fStepO .discardFirst ex st 1).sysPath := by decide
+
+/-- `knownFirst_breaks_returned_on_syspath` — `_known_dirs.add` BEFORE the append, a directory never seen before:
+    thread 0 has put 7 into `_known_dirs` and has not appended yet; thread 1's call RETURNS by the early return —
+    7 exists and is not on `sys.path`. -/
+theorem knownFirst_breaks_returned_on_syspath :
+    let ex : Nat → Bool := fun p => p == 7
+    let st := fRunO .knownFirst ex (fInit [1] histProg) [0, 0, 0, 0, 1, 1]
+    (st.threads 1).pc.path = some 7 ∧ ((fStepO .knownFirst ex st 1).threads 1).pc = .fIdle ∧ ex 7 = true ∧
+      7 ∉ (fStepO .knownFirst ex st 1).sysPath := by decide
+
+/-- `knownBeforeMissing_breaks_returned_on_syspath` — the not-exists branch in the order `_known_dirs.add`,
+    `_missing_dirs.add`: thread 0 found 7 missing and has put it into `_known_dirs`; the directory is created; thread
+    1's call sees "known and not (yet) missing" and RETURNS by the early return — 7 exists now and is not on
+    `sys.path`. (With `_missing_dirs.add` first — `fStep` — `add_sys_path_returned_on_syspath_anyfs` excludes this.) -/
+theorem knownBeforeMissing_breaks_returned_on_syspath :
+    let no : Nat → Bool := fun _ => false
+    let yes : Nat → Bool := fun p => p == 7
+    let st := fRunOW .knownBeforeMissing (fInit [1] histProg) [(no, 0), (no, 0), (no, 0), (no, 0), (yes, 1), (yes, 1)]
+    (st.threads 1).pc.path = some 7 ∧ (st.threads 1).pc.absent = none ∧
+      ((fStepO .knownBeforeMissing yes st 1).threads 1).pc = .fIdle ∧ yes 7 = true ∧
+      7 ∉ (fStepO .knownBeforeMissing yes st 1).sysPath := by decide
 
 /-- both threads pass the unlocked test for path 7 before either has added it -/
 example : (fRun (fun p => p == 7) (fInit [1] exSpProg)
